@@ -287,7 +287,11 @@ func (eng *Engine) discharge(vc *VC, workDir string, timeoutMs int, thorough boo
 		singles := map[int]string{}
 		paths := map[int][]string{}
 		lightPaths := map[int][]string{}
+		focused := map[int]string{}
 		for _, i := range idxs {
+			if k := vc.obls[i].Kind; k == "frame" || k == "framestep" {
+				focused[i] = vc.smtFocused(i)
+			}
 			lights[i] = vc.smtLight(i)
 			singles[i] = vc.smtSingle(i)
 			for k := range vc.obls[i].Paths {
@@ -309,6 +313,14 @@ func (eng *Engine) discharge(vc *VC, workDir string, timeoutMs int, thorough boo
 					out, _ := exec.Command(argv[0], argv[1:]...).CombinedOutput()
 					if strings.HasPrefix(strings.TrimSpace(string(out)), "unsat") {
 						ch <- ans{i, "unsat", solvers[0].name + "/light", time.Since(start).Seconds()}
+						return
+					}
+				}
+				if ftxt := focused[i]; ftxt != "" {
+					// frame goals: only the hypotheses about the heap in question (and allocation)
+					os.WriteFile(qf, []byte(ftxt), 0o644)
+					if fst, fby := raceSolvers(qf, timeoutMs/2); fst == "unsat" {
+						ch <- ans{i, "unsat", fby + "/focused", time.Since(start).Seconds()}
 						return
 					}
 				}
